@@ -2,7 +2,10 @@
 
 Lean: Props/C07.lean over Model/Concurrency.lean (`routeCall`): reuse changes nothing, exact answer of a submission,
       raise option rejects and changes nothing, disabled ⇒ always new, REGISTERED is never re-entered, `new` only when no
-      REGISTERED match exists.
+      REGISTERED match exists.  Props/C07Inv.lean: the census as an inductive invariant — `census_holds_after_any_history`:
+      after ANY sequence of submissions of the task (fresh ids, arguments over one signature) interleaved with ANY status
+      requests, no two REGISTERED invocations of the task have matching registration keys (induction over the history:
+      `census_init`, `routeCall_preserves`, `setStatus_preserves`).
 Tie:  sequences of submissions through the real `Task.__call__` (argument values drawn with repeats, positional / keyword /
       defaults-omitted spellings) interleaved with claims and completions, for every registration mode x key-argument
       choice x raise option, on Mem and SQLite, mirrored operation by operation on the Lean driver (`cc.route`, `o.set`);
@@ -23,6 +26,7 @@ from harness.translate import status as tr
 THEOREMS = [
     "reuse_changes_nothing", "routeCall_answer", "keys_raise_rejects_and_changes_nothing", "disabled_always_new",
     "registered_only_by_registration", "new_only_when_none_registered", "keyIn_symm",
+    "newInvocation_preserves", "routeCall_preserves", "setStatus_preserves", "census_init", "census_holds_after_any_history",
 ]
 
 CONFIGS = [
